@@ -3,6 +3,7 @@
 package simcheck
 
 import (
+	"sync/atomic"
 	"encoding/json"
 	"fmt"
 	"hash/fnv"
@@ -250,6 +251,7 @@ type Env struct {
 	ArmSeed  uint64
 	ArmPct   int // percentage of statement sites armed as preemption points
 	tailScale int // >1: the fair round-robin tail of every simulation is that many times longer (confirmation run)
+	stop      *atomic.Bool // confirmation run: set after 20 s of wall-clock time; a run that long past its budget does not end in any useful sense
 	hash     uint64
 	SimTime  time.Duration
 }
@@ -324,6 +326,7 @@ func (e *Env) Sim(opts SimOpts, main func()) *simrt.Result {
 		Chooser:   e.chooser(),
 		MaxSteps:  opts.MaxSteps,
 		FairSteps: opts.FairSteps * max(1, e.tailScale),
+		Stop:      e.stop,
 		KeepLog:   e.keepLog,
 		NoRace:    opts.NoRace,
 	}
@@ -468,7 +471,10 @@ func execCase(t *testing.T, p *Prop, in interface{}, meta caseMeta, ch *chooser,
 		cenv := &Env{T: t, ch: &chooser{mode: modeLoose, in: ch.out}, Tier: tier, Counters: map[string]int{}, stats: &runStats{},
 			KnownHit: map[string]string{}, ArmSeed: meta.ArmSeed, ArmPct: meta.ArmPct, known: knownLookup(p.ID), tailScale: 40}
 		simrt.SoloDraw = cenv.ch.Draw
+		cenv.stop = &atomic.Bool{}
+		guard := time.AfterFunc(20*time.Second, func() { cenv.stop.Store(true) })
 		cf := p.Run(cloneInput(p, in), cenv)
+		guard.Stop()
 		simrt.SoloDraw = ch.Draw
 		if cf == nil || !cf.budgetVerdict {
 			cr.fail = &Failure{Clause: "", Msg: "no termination within the step budget, but the same execution ends when the fair tail is 40 times longer"}
@@ -501,6 +507,10 @@ type Replay struct {
 	Hash      uint64          `json:"hash"`
 	Shrunk    shrinkInfo      `json:"shrunk"`
 	Trace     []string        `json:"trace,omitempty"`
+	// WallClock: the case did not come back within the per-case wall-clock limit (a loop in
+	// code that never reaches a scheduling point). There are no recorded choices: the replay
+	// re-runs the case from its seed and must overrun the limit again.
+	WallClock bool `json:"wall_clock,omitempty"`
 }
 
 type shrinkInfo struct {
